@@ -340,7 +340,7 @@ impl Rng {
 /// Direction B: one long random history on large vectors, logged as a chain of events (every event judged by TLC).
 /// The driver only uses what it legitimately knows (which handles it holds, lengths it read through the API) to pick
 /// applicable actions; it judges nothing.
-fn random_run<C: Config>(out: &str, seed: u64, steps: usize, maxlen: usize, nvecs: usize, profile: &str) {
+fn random_run<C: Config>(out: &str, seed: u64, steps: usize, maxlen: usize, nvecs: usize, profile: &str, faultpct: usize) {
     let mut rng = Rng(seed.wrapping_mul(0x9E3779B97F4A7C15) | 1);
     for _ in 0..8 { rng.next(); }
     reg::reset();
@@ -409,7 +409,7 @@ fn random_run<C: Config>(out: &str, seed: u64, steps: usize, maxlen: usize, nvec
                 let grow = len < maxlen && room;
                 let r = rng.below(100);
                 let src = rng.pick(&["wrapper", "raw", "typed"]);
-                let gp = if len < maxlen / 2 { 62 } else { 30 };
+                let gp = if len < 6 { 62 } else if len < maxlen / 2 { 34 } else { 24 };
                 if (r < gp && grow) || len == 0 && room {
                     if rng.chance(55) { json!({"op": "push", "v": v, "src": src}) } else { json!({"op": "insert", "v": v, "i": rng.below(len + 1) + (rng.chance(3) as usize) * 2, "src": src}) }
                 } else if r < 44 { json!({"op": rng.pick(&["pop_begin", "remove_begin", "swap_remove_begin"]), "v": v, "i": if rng.chance(4) { len + rng.below(2) } else { rng.below(len.max(1)) }}) }
@@ -484,16 +484,23 @@ fn random_run<C: Config>(out: &str, seed: u64, steps: usize, maxlen: usize, nvec
                         _ => json!({"op": "debug", "v": v}),
                     }
                 }
-                else if r < 93 && len > 0 && rng.chance(12) { json!({"op": "clear", "v": v, "path": rng.pick(&["erased", "typed"])}) }
+                else if r < 98 && len > 0 && rng.chance(30) { json!({"op": "clear", "v": v, "path": rng.pick(&["erased", "typed"])}) }
                 else if len > 0 { json!({"op": "get", "v": v, "i": rng.below(len), "kind": "get"}) }
                 else { json!({"op": "push", "v": v, "src": src}) }
             }
         };
         writeln!(marks, "{}", step + 1).unwrap();
         marks.flush().unwrap();
+        // fault injection (C06 on long histories): now and then the k-th invocation of user code inside the action panics
+        let inject = faultpct > 0 && rng.chance(faultpct);
+        let fk = match rng.below(20) { 0..=11 => 1, 12..=16 => 2, _ => 3 };
+        if inject { reg::set_countdown(fk); }
         let (o, cbs, ovf) = world.step(&act);
+        let fired = inject && reg::countdown() < 0;
+        reg::set_countdown(-1);
         let post = world.observe();
         let mut ev = event_json::<C>((step + 1) as i64, &act, &o, &cbs, ovf, &post, &mut world);
+        if fired { ev["fault"] = json!(fk); ev["fired"] = json!(true); }
         let last = step + 1 == steps;
         finish_td::<C>(&mut ev, &mut world, !last);
         ev["kids"] = if last { json!([]) } else { json!([step + 3]) };
@@ -566,6 +573,7 @@ fn main() {
     let mut seed = 1u64;
     let mut steps = 1000usize;
     let mut maxlen = 64usize;
+    let mut faultpct = 0usize;
     let mut i = 2;
     while i < args.len() {
         match args[i].as_str() {
@@ -576,6 +584,7 @@ fn main() {
             "--seed" => { seed = args[i + 1].parse().unwrap(); i += 2; }
             "--steps" => { steps = args[i + 1].parse().unwrap(); i += 2; }
             "--maxlen" => { maxlen = args[i + 1].parse().unwrap(); i += 2; }
+            "--faultpct" => { faultpct = args[i + 1].parse().unwrap(); i += 2; }
             "--skip" => { skip = args[i + 1].split(',').filter(|x| !x.is_empty()).map(|x| x.parse().unwrap()).collect(); i += 2; }
             "--nvecs" => { nvecs = args[i + 1].parse().unwrap(); i += 2; }
             "--shard" => { let p: Vec<usize> = args[i + 1].split('/').map(|x| x.parse().unwrap()).collect(); shard = (p[0], p[1]); i += 2; }
@@ -588,7 +597,7 @@ fn main() {
             match (args[1].as_str(), cfg.as_str()) {
                 ("list", _) => { $( println!("{}", <$c as Config>::NAME); )* }
                 $( ("replay", x) if x == <$c as Config>::NAME => replay::<$c>(&cases, &out, shard, nvecs, profile, &skip, faults), )*
-                $( ("random", x) if x == <$c as Config>::NAME => random_run::<$c>(&out, seed, steps, maxlen, nvecs, profile), )*
+                $( ("random", x) if x == <$c as Config>::NAME => random_run::<$c>(&out, seed, steps, maxlen, nvecs, profile, faultpct), )*
                 _ => { eprintln!("unknown command/config"); std::process::exit(3); }
             }
         };
